@@ -614,6 +614,12 @@ def native_iter(v, ctx=None):
     return None
 
 
+class LazyZip:
+    """builtin zip over a mix of interpreter-owned iterators and environment sources (lazy, left to right)"""
+    def __init__(self, parts):
+        self.parts = parts
+
+
 class DictView:
     def __init__(self, d, what):
         self.d, self.what = d, what
@@ -967,6 +973,11 @@ class Interp:
             raise PyRaise(payload)
         if isinstance(it, GenObj):
             return (yield from it.anext())
+        if isinstance(it, LazyZip):
+            vals = []
+            for part in it.parts:
+                vals.append((yield from self.pull(part, site, sync=True)))
+            return tuple(vals)
         if isinstance(it, EnvGen):
             return (yield from self.envgen_op(it, "next", None, site))
         if isinstance(it, NativeIter):
@@ -1761,7 +1772,7 @@ class Frame:
 
     def s_For(self, s):
         it0 = yield from self.ev(s.iter)
-        if isinstance(it0, (Source, GenObj)):
+        if isinstance(it0, (Source, GenObj, LazyZip)):
             if self.i.side == "impl" and isinstance(it0, Source) and it0.kind != "sync":
                 raise PyRaise(ExcVal("TypeError", ident="'async iterator' object is not iterable"))
             yield from self._for(s, it0, False)
@@ -2190,7 +2201,7 @@ class Frame:
         is_async = bool(g.is_async)
         stop = "StopAsyncIteration" if is_async else "StopIteration"
         if not is_async:
-            if isinstance(it0, (Source, GenObj)):
+            if isinstance(it0, (Source, GenObj, LazyZip)):
                 it = it0
             else:
                 it = native_iter(it0)
